@@ -354,6 +354,52 @@ Theorem C17_constant_sill_diag : forall cons xr srm,
 Proof. intros. split; [apply alpha_diag_nonneg | apply alpha_diag_sum]. Qed.
 Print Assumptions C17_constant_sill_diag.
 
+(* ================================================================== 5. the constant-sill constraint *)
+
+(* Constraints::expandConstantSill: after the expansion there is one imposed total per variable: the user's entry where the
+   user gave a vector entry, the scalar value elsewhere *)
+Theorem C17_constant_sill_expand : forall nvar c v,
+  (v < nvar)%nat ->
+  length (cs_sills (expand_constant_sill nvar c)) = nvar /\
+  imposed_total nvar c v = if (v <? length (cs_sills c))%nat then nth v (cs_sills c) None else cs_value c.
+Proof. exact expand_spec. Qed.
+Print Assumptions C17_constant_sill_expand.
+
+(* expanding again (same object used for another fit), or for another number of variables, keeps the totals already there *)
+Theorem C17_constant_sill_reexpand : forall n1 n2 c v,
+  expand_constant_sill n1 (expand_constant_sill n1 c) = expand_constant_sill n1 c /\
+  ((v < n2)%nat -> (v < n1)%nat -> imposed_total n2 (expand_constant_sill n1 c) v = imposed_total n1 c v).
+Proof. intros. split; [apply expand_idem | apply expand_twice]. Qed.
+Print Assumptions C17_constant_sill_reexpand.
+
+(* what the fit hands to the constrained Goulard is that vector -- and only if the scalar value is defined: a vector given
+   alone does not switch the constrained Goulard on (st_goulard_fitting tests the scalar) *)
+Theorem C17_constant_sill_to_goulard : forall nvar c l v,
+  fit_cons_sill nvar c = Some l -> (v < nvar)%nat ->
+  cs_value c <> None /\ nth v l None = imposed_total nvar c v.
+Proof. exact fit_cons_sill_spec. Qed.
+Print Assumptions C17_constant_sill_to_goulard.
+
+(* the reset of the constrained Goulard gives each of the ncova structures the share total / ncova *)
+Theorem C17_constant_sill_reset : forall cv ncova,
+  (0 < ncova)%nat -> inject_Z (Z.of_nat ncova) * reset_diag (Some cv) ncova == cv.
+Proof. exact reset_diag_total. Qed.
+Print Assumptions C17_constant_sill_reset.
+
+(* a constraint item on a sill (which switches Goulard off) together with a constant-sill constraint: the fit is refused,
+   from an experimental variogram and from a variogram map (before the repair the imposed total was dropped silently) *)
+Theorem C17_constant_sill_with_sill_item_refused : forall ndim ndir zflat nvar sn o o' c,
+  alter_optvar ndim ndir zflat nvar true sn o = Some o' -> is_constraint_sill_defined c = true ->
+  constant_sill_refused o' c = true.
+Proof. exact sill_item_and_constant_sill_refused. Qed.
+Print Assumptions C17_constant_sill_with_sill_item_refused.
+
+Theorem C17_constant_sill_with_sill_item_refused_vmap : forall ndim nvar sn o o' c,
+  alter_vmap_optvar ndim nvar true sn o = Some o' -> is_constraint_sill_defined c = true ->
+  constant_sill_refused o' c = true.
+Proof. exact sill_item_and_constant_sill_refused_vmap. Qed.
+Print Assumptions C17_constant_sill_with_sill_item_refused_vmap.
+
 (* ================================================================== non-vacuity *)
 Definition ex_S : fmat := fun i j => match i, j with O, O => 1 | 1%nat, 1%nat => 1 | O, 1%nat => 2 | 1%nat, O => 2 | _, _ => 0 end.
 Definition ex_lam : fvec := fun k => match k with O => 3 | _ => -(1) end.
@@ -502,3 +548,19 @@ Proof. vm_compute. split; reflexivity. Qed.
 Example C17_constant_sill_nonvacuous :
   Qeq_bool (alpha_diag 4 2 (1 # 2)) (1 # 2) = true /\ Qeq_bool (alpha_diag 4 2 3) 0 = true.
 Proof. vm_compute. split; reflexivity. Qed.
+
+Example C17_constant_sill_expand_nonvacuous :
+  cs_sills (expand_constant_sill 3 (mkCS (Some 1) [Some 5])) = [Some 5; Some 1; Some 1] /\
+  cs_sills (expand_constant_sill 2 (mkCS (Some 1) [Some 1; Some 2])) = [Some 1; Some 2] /\
+  cs_sills (expand_constant_sill 1 (mkCS (Some 1) [Some 3; Some 2])) = [Some 3] /\
+  cs_sills (expand_constant_sill 3 (expand_constant_sill 2 (mkCS (Some 1) [Some 5]))) = [Some 5; Some 1; Some 1] /\
+  fit_cons_sill 2 (mkCS None [Some 1; Some 2]) = None /\ is_constraint_sill_defined (mkCS None [Some 1; Some 2]) = true /\
+  imposed_total 2 (mkCS (Some 1) [Some 1; Some 2]) 1 = Some 2.
+Proof. vm_compute. repeat split; reflexivity. Qed.
+
+Example C17_constant_sill_refused_nonvacuous :
+  let o := mkO false true true true false false false false false false in
+  (match alter_optvar 2 2 [] 1 true false o with Some o' => constant_sill_refused o' (mkCS (Some 3) []) | None => false end) = true /\
+  (match alter_optvar 2 2 [] 1 false false o with Some o' => constant_sill_refused o' (mkCS (Some 3) []) | None => true end) = false /\
+  (match alter_optvar 2 2 [] 1 true false o with Some o' => constant_sill_refused o' (mkCS None []) | None => true end) = false.
+Proof. vm_compute. repeat split; reflexivity. Qed.
